@@ -4,6 +4,7 @@ import os
 from contracts.c01_programs import ProgramsContract, catalogue
 from contracts.c03_symbols import CONTRACTS as SYMBOL_CONTRACTS  # combine + build_model_definition header
 from contracts.c05_solve import SolveContract
+from props.parser_bounded import Classification
 from verif.spec import PropertySpec
 
 _tier = os.environ.get('VERIF_TIER', 'quick')
@@ -12,7 +13,7 @@ _seed = int(os.environ.get('VERIF_SEED', '0'))
 PROPERTY = PropertySpec(
     id='C03',
     contracts=list(SYMBOL_CONTRACTS) + [SolveContract(), ProgramsContract(catalogue(_tier, _seed))],
-    bounded=[],
+    bounded=[Classification()],
     level='other',
     explanation='Symbol.combine proved for all inputs (every dynamic type of lags/leads/equation/code, every type pair): stronger of the two '
                 'variable kinds, deepest lag / furthest lead with 0, SymbolError / ParserError exactly for the conflicting cases. Default range '
